@@ -27,7 +27,7 @@ PROPS = {
             "of the property text (both roads -> player who just moved; flats when full or a reserve is empty; draw; not over); "
             "has_road agrees with winner.",
             "Coq theorem (reachability closure <-> existence of a path, loop-erasure counting argument) + regenerated constants + differential correspondence in Coq",
-            "Reachability modelled as neighbour closure, not the Python work-list (results compared, not algorithms); winner/flat_counts are additionally tied by the py2coq translation (gen/GameGen.v), _walk is not translated.", "6/C02"),
+            "Reachability modelled as neighbour closure, not the Python work-list (results compared, not algorithms); The actual work-list of _walk is modelled statement by statement (RoadPy.v) and proved equal to the closure model with fuel 5*size^2+size+1; _walk, is_road, has_road, winner, flat_counts are REGENERATED from the source (gen/GameGen.v, py2coq) and proved equal to those models (C02_source_*).", "6/C02"),
     "C03": (True, "Full. For every position with size^2 squares: every canonical move the rules accept is in all_moves (exactly once: "
             "NoDup and count_occ = 1), everything generated is an entry of the id table of the size (all sizes; with ids below the head "
             "width for 3-6), the table entries the rules accept are exactly the canonical legal moves, so filtering the table (what "
@@ -60,7 +60,7 @@ PROPS = {
             "the mask is essential). Token values are read from the regenerated constants, so the proofs are re-checked against the "
             "live vocabulary.",
             "Coq theorem (induction over the board with decode's current-square accumulator) about a model also regenerated from the source by a translator (py2coq) + regenerated vocabulary + differential correspondence in Coq",
-            "torch tensor <-> list conversions in the harness; Python negative indexing modelled faithfully outside the domain. encode and decode are additionally REGENERATED from the source (gen/EncodingGen.v, py2coq against PySem.v) and proved equal to the model for every position / every token list below 2^52 entries, so the C06 theorems are also stated about the translated source (C06_source_*).", "6/C06"),
+            "torch tensor <-> list conversions in the harness; Python negative indexing modelled faithfully outside the domain. encode and decode are additionally REGENERATED from the source (gen/EncodingGen.v, py2coq against PySem.v) and proved equal to the model for every position / every token list below 2^52 entries, so the C06 theorems are also stated about the translated source (C06_source_*); _encode_batch/encode_batch are regenerated too (gen/EncodeBatchGen.v, torch2coq over TorchLite.v) and proved equal to the model's batch function for every list of positions.", "6/C06"),
     "C08": (True, "Full for the bookkeeping. A node-tree model with exact rationals, one simulation = one structural recursion over the "
             "descent path, the evaluator answers, root noise and sampler choices as input streams: the invariant Good (visits = 1 + "
             "children's, value = own evaluation - children's values, terminal nodes visits*outcome with outcome by winner, children "
@@ -69,14 +69,14 @@ PROPS = {
             "valid choice stream, k simulations add exactly k root visits (fresh tree: exactly n; re-used: max), |value| <= visits "
             "for evaluations in [-1,1], the searched position is untouched. Wall-clock time_limit is not modelled (runs use 0).",
             "Coq theorem (tree invariant preserved by simulate, induction over the descent path) + trace-based differential correspondence in Coq",
-            "Recording evaluator / recorded torch.multinomial choices / fake Dirichlet in the harness; float32 priors compared within 1e-5 relative inside Coq, values dyadic hence exact.", "6/C08"),
+            "Recording evaluator / recorded torch.multinomial choices / fake Dirichlet in the harness; float32 priors compared within 1e-5 relative inside Coq, values dyadic hence exact. MCTS.update and the pure part of MCTS.populate are REGENERATED from the source (gen/MctsGen.v, mcts2coq over MctsSem.v/PySem.v) and proved equal to the backup and expansion steps of the model (C08_source_*); descend (sampling), analyze_tree (loop, time limit) and the aliasing of path records with tree nodes stay trace-tied.", "6/C08"),
     "C09": (True, "Partial. Exact-arithmetic theorems: at every expanded node of a Good tree q_i is in [-1,1], child priors are positive "
             "and sum to 1 (given the evaluator gives a legal move the cutoff), lambda^2 > 0, before any visit the policy is the prior, "
             "after a visit it is solve(policy_inputs); every child move is accepted by the rules in the parent position, so the "
             "returned move is legal. The inputs (prior, q, lambda) the implementation hands to the solver at every call are compared "
             "with the model's inside Coq; 'to the accuracy the solver guarantees' rests on C10, whose float behaviour is not proved.",
             "Coq theorem over the tree invariant + correspondence of every solver call's inputs in Coq + rational oracle of the returned distribution",
-            "Solver output accuracy is C10's; the multiplier is compared BIT FOR BIT with a binary64 SpecFloat mirror (model/LambdaF64.v) of c*sqrt(N)/(N+K) and of its float32 cast; policy queries repeated after the search with other C and after continuing a subtree.", "6/C09"),
+            "Solver output accuracy is C10's; the multiplier is compared BIT FOR BIT with a binary64 SpecFloat mirror (model/LambdaF64.v) of c*sqrt(N)/(N+K) and of its float32 cast; policy queries repeated after the search with other C and after continuing a subtree. Node.policy_probs is REGENERATED from the source (gen/MctsGen.v) and proved equal to the model's policy_inputs/policy_probs with the multiplier equal to the binary64 mirror (C09_source_*).", "6/C09"),
     "C10": (True, "Partial. The bisection is written once, generic in the arithmetic; proved in exact rationals (no Reals axioms): f "
             "strictly decreasing above max q, the initial bracket contains the root, bisection keeps it bracketed with width "
             "lambda/2^k, the Python exit rule returns within 32 iterations (the AssertionError is unreachable), the output is "
@@ -114,7 +114,7 @@ PROPS = {
             "numbers, annotations, result markers and arbitrary white space parse_game returns the tags and exactly the moves in "
             "order. Regexes and glyph maps are regenerated constants.",
             "Coq theorem (recursive-descent matcher = grammar relation; renderer/parse_game round trip) + regenerated regexes + differential correspondence in Coq (exhaustive over moves and short strings)",
-            "A standard declarative regex semantics (spec/RegexSpec.v) ties the REGENERATED regex texts to the hand matchers: the printed ASTs equal the strings scraped from ptn.py and the move matcher, the token filters and the comment substitution are proved equal to that semantics (the greedy \\s+ split and the tag findall scan only per match: _partial); \\s,\\d exact tables checked against re on every run, \\w on ASCII only. format_move is REGENERATED from the source (gen/PtnGen.v, py2coq) and proved equal to the model (C14_source_*).", "6/C14"),
+            "A standard declarative regex semantics (spec/RegexSpec.v) ties the REGENERATED regex texts to the hand matchers: the printed ASTs equal the strings scraped from ptn.py and the move matcher, the token filters and the comment substitution are proved equal to that semantics (the greedy \\s+ split and the tag findall scan only per match: _partial); \\s,\\d exact tables checked against re on every run, \\w on ASCII only. format_move (gen/PtnGen.v, py2coq) and parse_move / PTN.parse (gen/PtnParseGen.v, ptn2coq over the regex semantics) are REGENERATED from the source and proved equal to the model for every string (parse_move) / every text the \\w model covers (PTN.parse) (C14_source_*).", "6/C14"),
     "C15": (True, "Full. The eight regenerated matrices are the dihedral group of the square (distinct maps, closed under composition and "
             "inverse, signed permutation linear parts, bijections of the board preserving adjacency, for every size); for every "
             "symmetry, every position with size^2 squares and EVERY move (legal, illegal, off-board, malformed): transform then move "
